@@ -166,7 +166,7 @@ def run(ctx):
     # bin indices, chunking); judged by the in-situ monitor like every other call, plus re-gating
     for cid, rng in ctx.cases([('big', i) for i in range(3 if ctx.tier == 'quick' else 30)]):
         mon.cid = cid
-        N = int(rng.choice([70000, 120000]))
+        N = int(rng.choice([70000, 120000, 300000]))
         X = events(rng, N, str(rng.choice(['blob', 'mixture', 'uniform'])))
         data = np.column_stack([X, np.arange(N)])
         nx, ny = [(40, 64), (64, 40), (33, 33)][cid[1] % 3]
